@@ -1,13 +1,17 @@
 #!/bin/sh
-# usage: mutate.sh <patch> <ID>... ; applies a patch to /repo's working tree, runs the quick checks, reverts.
+# usage: mutate.sh <patch> <ID>... ; applies a patch to a scratch copy of /repo (HEAD), runs the quick
+# checks against that copy, removes the copy. /repo itself is never touched.
 # Validation tooling only; not used by registered commands.
 patch="$1"; shift
-cd /repo || exit 2
-if ! git diff --quiet; then echo "/repo working tree is dirty"; exit 2; fi
-git apply "$patch" || { echo "patch does not apply"; exit 2; }
-trap 'git -C /repo checkout -- . ; git -C /repo clean -fdq' EXIT INT TERM
+scratch="$(mktemp -d /tmp/mut.XXXXXX)"
+evroot="$scratch/verifroot"
+trap 'rm -rf "$scratch"' EXIT INT TERM
+git -C /repo archive HEAD | tar -x -C "$scratch" || exit 2
+mkdir -p "$scratch/repo" && (cd "$scratch" && for f in *; do [ "$f" = repo ] || [ "$f" = verifroot ] || mv "$f" repo/; done)
+(cd "$scratch/repo" && git init -q . && git apply "$patch") || { echo "patch does not apply"; exit 2; }
+mkdir -p "$evroot" && cp /verif/known_findings.json "$evroot/"
 for id in "$@"; do
   tier=${TIER:-quick}
-  out=$(cd /verif && ./check "$id" "$tier" 2>&1); rc=$?
-  echo "== $id rc=$rc"; echo "$out" | grep -E "VIOLATION|KNOWN|OK|INCONCLUSIVE|what:" | head -6
+  out=$(cd /verif && VERIF_REPO="$scratch/repo" VERIF_ROOT="$evroot" ./check "$id" "$tier" 2>&1); rc=$?
+  echo "== $id rc=$rc"; echo "$out" | grep -E "VIOLATION|KNOWN|^OK|INCONCLUSIVE|what:" | head -6
 done
